@@ -39,6 +39,32 @@ def confirm_ce(pid, replay_file, n, k):
     return repl.judge("ce", out, r, None)
 
 
+def sentinel_histories(pid, violations, mismatch, cov):
+    c = os.path.join(vlib.scratch(), "sentinel.cfg")
+    open(c, "w").write("SPECIFICATION Spec\nCONSTANTS\n ColumnFirst = TRUE\nINVARIANTS C01_RelayConverged C01_ClientConverged C05_NothingDropped\n")
+    r = vlib.run_tlc("Sentinel.tla", c, workers=2, timeout=600)
+    if r.error:
+        raise vlib.ToolError("TLC Sentinel: %s\n%s" % (r.error, r.output[-1200:]))
+    cov["states"] += r.distinct; cov["transitions"] += r.generated
+    if r.violated:
+        mismatch.append("Sentinel.tla violates %s" % r.violated)
+    out = os.path.join(vlib.scratch(), "sentinel.json")
+    p = vlib.run_vh(["sentinel-probe", out], timeout=600)
+    if p.returncode != 0:
+        raise vlib.ToolError("vh sentinel-probe failed: %s" % p.stderr[-800:])
+    d = json.load(open(out))
+    for cse in d["cases"]:
+        what = "origin: insert, delete, re-insert, update of one row; relay receives the versions in the order %s; client holds 1..%d and asks the relay for the rest" % (cse["relay_order"], cse["client_has"])
+        if cse["relay_table"] != cse["origin_table"]:
+            violations.append(("C01: relay that received every version shows %s, the origin %s (%s)" % (cse["relay_table"], cse["origin_table"], what), vlib.write_replay(pid, "sentinel", cse)))
+        if cse["client_needs_left"] == 0 and cse["client_table"] != cse["origin_table"]:
+            tag = "the server dropped a live change of a version it holds" if pid == "C05" else "client and origin differ although no need is left"
+            violations.append(("%s: client shows %s, the origin %s (%s)" % (tag, cse["client_table"], cse["origin_table"], what), vlib.write_replay(pid, "sentinel", cse)))
+        elif cse["client_needs_left"] != 0:
+            mismatch.append("sentinel history: the client still has needs after the relay answered (%s)" % what)
+    cov["sentinel_histories"] = len(d["cases"])
+
+
 def run(pid, tier):
     t0 = time.time()
     invs, shapes, off = PROFILES[pid]
@@ -93,6 +119,9 @@ def run(pid, tier):
             violations.extend((t, keep) for t in v[:2])
             mismatch.extend(t + " (%s)" % keep for t in m[:2])
     cov["regressions_replayed"] = nreg
+    # (1c) delete / re-insert histories of one row (Sentinel.tla): outside the upsert-only model above
+    if pid in ("C01", "C05"):
+        sentinel_histories(pid, violations, mismatch, cov)
     # (2) recorded walks of the real cluster, validated by TLC against the specification
     nwalks = 12 if tier == "quick" else 120
     seed0 = vlib.seed() * 100000 + off
@@ -135,7 +164,7 @@ def run(pid, tier):
                    "deliveries in batches, buffered applies, meta clears, sync serving, restarts), each event checked by TLC to be the specification's step and "
                    "all invariants evaluated on every state")
     vlib.write_evidence(pid, tier, LEVEL, cov, time.time() - t0, violations=len(violations), assumptions=[
-        "data model: upserts of unique values on one table (deletes / re-inserts are outside this specification)",
+        "data model of Replication.tla: upserts of unique values on one table; deletes / re-inserts are covered only by Sentinel.tla (one row, fixed origin history, any relay order) and its seven real scenarios",
         "the harness is the network: real QUIC transport, handle_changes batching and parallel_sync are not in this check",
         "process-crash durability (files copied at a commit boundary), not power loss",
         "liveness (drain to quiescence within 12 full-mesh rounds) is observed on the real walks, not proved"])
